@@ -254,6 +254,13 @@ def run(cx):
     heap_order(cx, "C07.o", ["event"])
     from bits import check_headers
     check_headers(cx, "C07.p", "C07.q")
+    # "both ends agreeing on starting sequence numbers and negotiated limits": the starting frame id is the nonce, any
+    # 32-bit value, so window tests must be wrap-safe from the first frame; and both ends round the negotiated
+    # allocation limit with the same expression
+    from props.idarith import id_arith_discipline
+    id_arith_discipline(cx, "C07.s")
+    from props.C06 import inst_sibling_accounting
+    inst_sibling_accounting(cx, "C07.t")
     from props.C17 import is_active_exact
     is_active_exact(cx, "C07.r")
 
